@@ -161,6 +161,24 @@ pub struct Mach {
     pub scratch: Vec<F>,
     /// E2: handles produced by other simulated threads, with their model denotations
     pub foreign: Vec<(F, Den)>,
+    pub created: std::time::Instant,
+    pub is_view: bool,
+}
+
+/// The manager's collector thread only receives the Quit signal if it already waits on its
+/// condition variable when the last reference is dropped; otherwise thread, worker pool and
+/// node store leak (not one of the properties, but thousands of leaked threads per process
+/// would exhaust the address space). Outside the simulator, give the thread time to start.
+#[cfg(not(oxidd_verif))]
+impl Drop for Mach {
+    fn drop(&mut self) {
+        if !self.is_view {
+            let min = std::time::Duration::from_micros(400);
+            while self.created.elapsed() < min {
+                std::thread::yield_now();
+            }
+        }
+    }
 }
 
 impl Mach {
@@ -182,6 +200,8 @@ impl Mach {
             initial_nodes_for: initial_nodes,
             scratch: vec![],
             foreign: vec![],
+            created: std::time::Instant::now(),
+            is_view: false,
         }
     }
 
@@ -345,9 +365,8 @@ impl Mach {
                 if gc1 <= gc0 && !(ctx.concurrent && ret == 0) {
                     ctx.violate(&["C05", "C06"], "gc-count", format!("gc_count did not grow across gc(): {} -> {}", gc0, gc1));
                 }
-                if !ctx.concurrent {
-                    ctx.obs.u64(ret as u64);
-                }
+                // (not part of the observation digest: the number of dead intermediate
+                // nodes legitimately depends on the cache configuration)
             }
             AddVars { k } => {
                 if model.n + *k as u32 > self.max_vars() {
@@ -925,6 +944,8 @@ impl Mach {
             initial_nodes_for: self.initial_nodes_for,
             scratch: vec![],
             foreign: vec![],
+            created: self.created,
+            is_view: true,
         }
     }
 
